@@ -7,6 +7,7 @@ Open Scope string_scope.
 
 (* (object file, symbol, size in bytes) of every object in a writable section *)
 Definition statics : list (string * string * N) := [
+  ("archive_entry_strmode.c", "strmode_buf", 12%N);
   ("archive_read_disk_posix.c", "can_dupfd_cloexec", 4%N);
   ("archive_read_disk_posix.c", "lst", 8%N);
   ("archive_read_support_filter_compress.c", "debug_index", 4%N);
@@ -18,11 +19,13 @@ Definition statics : list (string * string * N) := [
   ("archive_time.c", "dos_initialised", 1%N);
   ("archive_time.c", "dos_max_unix", 8%N);
   ("archive_time.c", "dos_min_unix", 8%N);
-  ("archive_version_details.c", "str", 24%N)
+  ("archive_version_details.c", "str", 24%N);
+  ("archive_write_set_format_pax.c", "tmp", 13%N)
 ].
 
 (* section each of them lives in (same order) *)
 Definition statics_sections : list string := [
+  ".bss.strmode_buf.1";
   ".data.can_dupfd_cloexec.2";
   ".bss.lst.1";
   ".bss.debug_index.1";
@@ -34,7 +37,8 @@ Definition statics_sections : list string := [
   ".bss.dos_initialised";
   ".bss.dos_max_unix";
   ".bss.dos_min_unix";
-  ".bss.str.0"
+  ".bss.str.0";
+  ".bss.tmp.0"
 ].
 
 (* committed classification: (object, symbol, (class code, mutex)); codes: 0 locked:<mutex>,
